@@ -232,6 +232,8 @@ mutant("c07_set_ordered_sum", "C07", "variables/specs.py",
 # ----------------------------------------------------------------------------- C11
 mutant("c11_numpy_not_seeded", "C11", "algo/base.py", "            np.random.seed(seed)\n", "")
 mutant("c11_torch_not_seeded", "C11", "algo/base.py", "            torch.manual_seed(seed)\n", "")
+mutant("c11_model_initialized_before_seeding", "C11", "models/base.py",
+       "                algorithm._initialize_seed(algorithm.seed)\n            self.initialize(dataset)", "                pass\n            self.initialize(dataset)")
 mutant("c11_logger_consumes_a_draw", "C11", "algo/fit/fit_output_manager.py",
        "    def print_time(self):", "    def print_time(self):\n        torch.rand(1)")
 mutant("c11_print_only_logging_crashes", "C11", "algo/fit/fit_output_manager.py",
